@@ -116,7 +116,7 @@ PROPS = {
         standins=["crypto-ref"],
         kani=[K("c05_perm_new_and_flags", "encryption/permissions.rs", "Permissions::new/from_flags/flags/all")] +
              [K(f"c23_pad_password_{n}", "encryption/standard_security.rs", "StandardSecurityHandler::pad_password") for n in (0, 1, 31, 32, 33)],
-        not_decided="AES-CBC/PKCS#7 (aes, cbc crates), MD5/SHA (md5, sha2 crates); Algorithm 2 (compute_key_from_padded) is proved against the ISO definition with md5 uninterpreted; Algorithm 2.B (compute_hash_r6_algorithm_2b) is proved equal to the ISO 32000-2 definition (alg2b: 64 x (password + K + U[0..48]) zero-padded, AES-128-CBC without padding under K[0..16] / K[16..32], hash chosen by the first 16 bytes of E modulo 3 -- the byte-sum shortcut is justified by a lemma --, at least 64 rounds, stop when the last byte of E <= rounds - 32, first 32 bytes) with SHA-2 and AES uninterpreted; Algorithms 3, 4/5 are compared with an independent transcription only by the bounded stand-in crypto-ref; Algorithms 8-10 (R5/R6 entries) not decided",
+        not_decided="AES-CBC/PKCS#7 (aes, cbc crates), MD5/SHA (md5, sha2 crates); Algorithm 2 (compute_key_from_padded) is proved against the ISO definition with md5 uninterpreted; Algorithm 2.B (compute_hash_r6_algorithm_2b) is proved equal to the ISO 32000-2 definition (alg2b: 64 x (password + K + U[0..48]) zero-padded, AES-128-CBC without padding under K[0..16] / K[16..32], hash chosen by the first 16 bytes of E modulo 3 -- the byte-sum shortcut is justified by a lemma --, at least 64 rounds, stop when the last byte of E <= rounds - 32, first 32 bytes) with SHA-2 and AES uninterpreted; Algorithm 3 (compute_owner_hash) and Algorithms 4/5 (compute_user_hash_from_padded, which calls the proved Algorithm 2) are proved equal to their ISO 32000-1 definitions with md5 uninterpreted, RC4 as specified in unit rc4 and the password padding as proved by the Kani harnesses; Algorithms 8-10 (R5/R6 entries) are compared with an independent transcription only by the bounded stand-in crypto-ref",
     ),
     "C26": dict(
         verus=["cmaprange"],
